@@ -741,6 +741,11 @@ def m_bytes(I, fv, args, kw):
         return NONE
     if name == "rstrip" and len(args) == 1:
         chars = I.resolve(args[0])
+        if isinstance(chars, VBytes) and chars.conc_len() is None and I.path.known(_iv(chars.length()) <= 1):
+            # at most one byte (e.g. x[-1:]): decide which
+            if I.path.branch(_iv(chars.length()) == 0, "rstrip_empty_set"):
+                return vb
+            chars = VBytes([Lit([chars.at(0)])], chars.kind)
         if isinstance(chars, VBytes) and chars.conc_len() == 1:
             c = chars.at(0)
             n = _iv(vb.length())
